@@ -392,10 +392,10 @@ func (cr *crashRunner) runJob(j crashJob) {
 				exit = ee.ExitCode()
 			}
 		}
-	case <-time.After(120 * time.Second):
+	case <-time.After(600 * time.Second):
 		_ = cmd.Process.Kill()
 		exit = 124
-		se.WriteString("\nrecovery did not finish within 120s")
+		se.WriteString("\nrecovery did not finish within 600s")
 	}
 	var child []rec.Event
 	dec := json.NewDecoder(&so)
